@@ -331,6 +331,21 @@ fn foreign_read(tool: &str, archive: &[u8], name: &str, pw: &[u8]) -> Result<Vec
     res
 }
 
+/// A read under a password different from the entry's completed with bytes `d` that are not the
+/// content.  ZipCrypto authenticates nothing beyond the 1-byte header check and the CRC-32 of the
+/// plaintext, so ONE way for this to happen is inherent in the format and no reader can refuse it: the
+/// wrong password passes the check byte and what comes out has the declared CRC-32 (known finding K-H,
+/// probability about 2^-40 per random pair; the witness in corpus/zc.ops was constructed).  Everything
+/// else (check byte not passed, or a CRC-32 other than the declared one) is a defect of the reader.
+fn judge_wrong_completed(raw: &[u8], wrong: &[u8], crc: u32, d: &[u8]) -> String {
+    let hdr_passes = raw.len() >= 12 && pk::Keys::new(wrong).decrypt(&raw[..12])[11] == (crc >> 24) as u8;
+    if hdr_passes && pk::crc32(d) == crc {
+        format!("K-H zipcrypto-crc-collision: a wrong password passed the 1-byte header check and decrypted to {} other bytes with the declared CRC-32 {crc:08x}: the read completes (format-inherent: ZipCrypto has no other integrity check)", d.len())
+    } else {
+        format!("a wrong password ended in a completed read of other bytes (header check passed by the independent implementation: {hdr_passes}; CRC-32 of the bytes returned {:08x}, declared {crc:08x})", pk::crc32(d))
+    }
+}
+
 fn contains(hay: &[u8], needle: &[u8]) -> bool {
     !needle.is_empty() && hay.windows(needle.len()).any(|w| w == needle)
 }
@@ -741,17 +756,15 @@ impl Stream for Zc {
                 if !resp.ends_with(" plainpw=same") {
                     fail("a password supplied for a non-encrypted entry was not ignored".into());
                 }
-                if resp.contains(" wrong=diff ") && wrong != pw {
-                    fail("a wrong password ended in a completed read of other bytes".into());
-                }
                 let ar = match build_arch(&pw, &m, n("n") as usize, n("pos") as usize, &data) { Ok(x) => x, Err(e) => { fail(format!("writer failed: {e}")); return f; } };
-                if resp.contains(" wrong=pass ") {
+                let raw = match raw_of(&ar.bytes, ar.pos) { Ok(x) => x, Err(e) => { fail(format!("raw bytes: {e}")); return f; } };
+                if (resp.contains(" wrong=diff ") || resp.contains(" wrong=pass ")) && wrong != pw {
                     match open_and_read(&ar.bytes, ar.pos, Some(&wrong)) {
-                        Ok(d) if d != data => fail("a wrong password ended in a completed read of other bytes (compressed entry)".into()),
+                        Ok(d) if d != data => fail(judge_wrong_completed(&raw, &wrong, pk::crc32(&data), &d)),
+                        Ok(_) if resp.contains(" wrong=diff ") => fail("wrong=diff is not reproducible: the same read now returns the original bytes".into()),
                         _ => {}
                     }
                 }
-                let raw = match raw_of(&ar.bytes, ar.pos) { Ok(x) => x, Err(e) => { fail(format!("raw bytes: {e}")); return f; } };
                 let plain = pk::Keys::new(&pw).decrypt(&raw);
                 let crc = pk::crc32(&data);
                 if plain.len() < 12 || plain[..11] != [0u8; 11] || plain[11] != (crc >> 24) as u8 {
